@@ -3,7 +3,7 @@
 package stack
 
 // C08: race report parse fidelity: the full product of report shapes of the tsan
-// printer model (gen.GenRace) x 4 surroundings against ground truth.
+// printer model (gen.GenRace) x 6 surroundings against ground truth.
 
 import (
 	"bytes"
@@ -16,7 +16,8 @@ import (
 	"github.com/maruel/panicparse/v2/internal/verifx/h"
 )
 
-var raceSurrounds = [][2]string{{"", ""}, {"some output\n", ""}, {"", "exit status 66\n"}, {"Found 1 data race(s)\n\n", "FAIL\nmore\n"}}
+var raceSurrounds = [][2]string{{"", ""}, {"some output\n", ""}, {"", "exit status 66\n"}, {"Found 1 data race(s)\n\n", "FAIL\nmore\n"},
+	{"==================\n", "==================\n"}, {"x\n==================\nWARNING: DATA RACE\n", "\n"}}
 
 func checkRaceParse(rc *gen.Race, foreignAt int, before, after, key string) *h.Viol {
 	body := rc.Bytes()
@@ -136,7 +137,7 @@ func raceScenario(c *h.Ctx) (*gen.Race, int, [2]string) {
 func TestVerifC08(t *testing.T) {
 	r := h.Start("C08")
 	defer r.Finish(func(s string) { t.Error(s) })
-	r.Set("rule", "full product of the tsan report printer model: 2..3 operations (read/write each), operation stacks of 1..2 frames with/without arguments, every subset of goroutines having a creation section x every order of the sections x running/finished x creation stacks of 1..2 frames, a foreign section (goroutine 99) at every position or absent, LF/CRLF, 4 surroundings; ground-truth comparison of id, address, kind, stacks, state and creation stack per goroutine; non-trivial = sections are not in operation order, or a subset, or a foreign section is present; distinct = choice vector")
+	r.Set("rule", "full product of the tsan report printer model: 2..3 operations (read/write each), operation stacks of 1..2 frames with/without arguments, every subset of goroutines having a creation section x every order of the sections x running/finished x creation stacks of 1..2 frames, a foreign section (goroutine 99) at every position or absent, LF/CRLF, 6 surroundings (incl. a lone separator line, and a separator+warning pair, directly before the report); ground-truth comparison of id, address, kind, stacks, state and creation stack per goroutine; non-trivial = sections are not in operation order, or a subset, or a foreign section is present; distinct = choice vector")
 	r.Set("assumptions", []string{"the report printer model (verifx/gen/race.go) is faithful to tsan's Go report format", "the race rows of the line grammar are additionally covered by the C07 product search"})
 	if rv := r.ReplayFile(); rv != nil {
 		in := rv.Input()
